@@ -460,6 +460,19 @@ def run_check(pid, tier, seed):
         missing_ = [w for w in wanted if w not in [r[0] for r in res]]
         if missing_: obligations.append(('layer I: routines %s' % missing_, False, 'not produced by layerI.check_layerI'))
         checker_cmds.append('layerI/rs2v.py --src /repo/src (Rust -> Gallina) ; coqc ImplLib ImplGen ImplCommon ImplTables ImplMul + one file per routine (layerI/layerI.py)')
+        if tier == 'thorough':     # independent re-check (coqchk) of the layer-I proof files compiled in this run
+            lis = os.path.join(scratch, 'layerI')
+            pmods = ['DVI.P_' + w for w in wanted if os.path.exists(os.path.join(lis, 'P_%s.vo' % w))]
+            if pmods:
+                with Lock('coq.lock'):
+                    rc, out = sh('timeout 6000 coqchk -silent -o -Q theories DV -Q %s DVI %s 2>&1' % (lis, ' '.join(pmods)), cwd=COQ, timeout=7000)
+                axs = re.findall(r'^\s+((?:Coq|Flocq|DV|DVI)\.[\w\.]+)\s*$', out.split('* Axioms:')[1].split('* Constants')[0], flags=re.M) if '* Axioms:' in out else []
+                bad = [a for a in axs if a.replace('Coq.Logic.', '').replace('Coq.Reals.', '') not in ALLOWED_AXIOMS]
+                clean = all(('%s: <none>' % k) in out for k in ('relying on type-in-type', 'relying on unsafe (co)fixpoints', 'whose positivity is assumed'))
+                okc = rc == 0 and not bad and clean
+                obligations.append(('coqchk: independent re-check of %d layer-I proof files of this run (regenerated Gallina included)' % len(pmods), okc,
+                                    '' if okc else ('exit %s; axioms outside the allow-list: %s; %s' % (rc, bad, out[-600:]))))
+                checker_cmds.append('coqchk -silent -o -Q theories DV -Q <scratch>/layerI DVI ' + ' '.join(pmods))
 
     # 3. table obligations (regenerated from the compiled crate)
     table_results = []
